@@ -2604,5 +2604,52 @@ example : (yRun (α := Rat) C01_unitsFullEnv .all .new {} [] ⟨none, []⟩ 1 []
              .step ⟨[.text "Again ".toList, .ingredient 2, .text ".".toList], 3⟩]⟩] ∧
     ((C01_exUnitsDoc "tbsp").map (·.1)).filter (DocItem.isEntry Rat C01_unitsFullEnv) = [] := by decide
 
+/-! ### components mode under duplicate mode `reference` (per event, first occurrence of a name) -/
+
+/-- **A component written in components mode while the duplicate mode is `reference`, whose name has no earlier
+    definition** (the first occurrence of the name; `sameNameIdx … = none`): exactly as under duplicate mode `new`
+    (`C01_components_mode_region`) — it is appended to the table as written with `defined_in_step = false`
+    (`ingrOfC`), nothing is reported.  PARTIAL: the repeated occurrence of a name in this combination of modes (the
+    code makes it an implicit reference to a `defined_in_step = false` definition, so an amount on both sides is an
+    error `conflicting-ref-quantity`) and the lift to whole documents (`yOKB` / `yOKUB` ask for duplicate mode `new`
+    in components mode) are not covered. -/
+theorem C01_components_mode_duplicate_reference_first_partial {α : Type} [Arith α] (env : Env) (input : Str)
+    (li : Loc (PIngredient α)) (s : Col α) (items : List Item) (h : IngrSimple li)
+    (hd : s.defineMode = .components) (hdup : s.duplicateMode = .reference)
+    (hnone : sameNameIdx env (s.ingredients.toList.map (fun x => (x.name, x.modifiers))) (ingrOf env li).name = none)
+    (hb : s.block = some (.step items)) :
+    (processEvent env input (.ingredient li) s).2 =
+      { s with locIngr := s.locIngr.push li, ingredients := s.ingredients.push (ingrOfC env li),
+               block := some (.step (items ++ [.ingredient s.ingredients.size])) } :=
+  rtcr_proc_ingredient_first env input li s items h hd hdup hnone hb
+
+/-- the same for cookware -/
+theorem C01_components_mode_duplicate_reference_first_cookware_partial {α : Type} [Arith α] (env : Env) (input : Str)
+    (lc : Loc (PCookware α)) (s : Col α) (items : List Item) (h : CwSimple lc)
+    (hd : s.defineMode = .components) (hdup : s.duplicateMode = .reference)
+    (hnone : sameNameIdx env (s.cookware.toList.map (fun x => (x.name, x.modifiers))) (cwOf env lc).name = none)
+    (hb : s.block = some (.step items)) :
+    (processEvent env input (.cookware lc) s).2 =
+      { s with locCw := s.locCw.push lc, cookware := s.cookware.push (cwOfC env lc),
+               block := some (.step (items ++ [.cookware s.cookware.size])) } :=
+  rtcr_proc_cookware_first env input lc s items h hd hdup hnone hb
+
+/-! example: `@salt{1%tsp}` and `#pot{}` as the first components of a components-mode step under duplicate mode
+    `reference`; and what the model of the code does with the SECOND `salt` there: an implicit reference, and with
+    an amount on both sides an error — the case left open. -/
+def C01_exCompsDup : Col Rat := { defineMode := .components, duplicateMode := .reference, block := some (.step []) }
+example : IngrSimple C01_exSalt1 ∧ CwSimple C01_exPot1 ∧
+    sameNameIdx C01_modesEnv (C01_exCompsDup.ingredients.toList.map (fun x => (x.name, x.modifiers)))
+      (ingrOf C01_modesEnv C01_exSalt1).name = none ∧
+    sameNameIdx C01_modesEnv (C01_exCompsDup.cookware.toList.map (fun x => (x.name, x.modifiers)))
+      (cwOf C01_modesEnv C01_exPot1).name = none :=
+  ⟨⟨rfl, by decide, by intro q hq; cases hq; intro _; exact ⟨rfl, rfl⟩⟩, ⟨by decide, by intro q hq; cases hq⟩,
+    by decide, by decide⟩
+example : ((processEvent C01_modesEnv [] (.ingredient C01_exSalt2)
+      (processEvent C01_modesEnv [] (.ingredient C01_exSalt1) C01_exCompsDup).2).2.ingredients.toList.map (·.relation),
+    (processEvent C01_modesEnv [] (.ingredient C01_exSalt1)
+      (processEvent C01_modesEnv [] (.ingredient C01_exSalt1) C01_exCompsDup).2).2.diags.toList.map (·.kind)) =
+    ([⟨.definition [1] false, none⟩, ⟨.reference 0, some .ingredient⟩], ["conflicting-ref-quantity"]) := by rfl
+
 
 end Cook
